@@ -110,6 +110,17 @@ Definition tscale_applies (s : tscale) (x : Z) : bool :=
   | Some l, Some u => complies_lower l x && complies_upper u x
   end.
 
+(* the internal value which stands for the text of a scale: the inverse value, else the first of lower limit, its
+   upper neighbour, upper limit, its lower neighbour which the scale applies to (since the fix commit "TEXTTABLE encoded
+   a text by a limit of interval type OPEN"; before, the lower limit was taken whatever its interval type) *)
+Definition limit_cands (o : option limit) (step : Z) : list Z :=
+  match o with Some (mkLimit (Some x) _) => [x; x + step] | _ => [] end.
+Definition tscale_internal (s : tscale) : option Z :=
+  match tinv s with
+  | Some x => Some x
+  | None => find (tscale_applies s) (limit_cands (tlo s) 1 ++ limit_cands (thi s) (-1))
+  end.
+
 (* ---------- rational functions ---------- *)
 Record rseg := mkR { rnum : list Z; rden : list Z; rlo : option limit; rhi : option limit }.
 Fixpoint horner (cs : list Z) (x : Z) : Z :=
@@ -167,7 +178,10 @@ Definition valid_phys (c : compu) (v : cval) : bool :=
   | MLinear s, CInt y => phys_applies s y
   | MScaleLinear segs, CInt y => existsb (fun s => phys_applies s y) segs
   | MTextTable scales _ idef, CText t =>
-    match idef with Some _ => true | None => existsb (fun s => text_eqb (tconst s) t) scales end
+    match idef with
+    | Some _ => true
+    | None => existsb (fun s => text_eqb (tconst s) t && match tscale_internal s with Some _ => true | None => false end) scales
+    end
   | MTextTable scales _ idef, CInt _ => match idef with Some _ => true | None => false end
   | MTabIntp pts, CInt y => (zmin_list (map snd pts) <=? y) && (y <=? zmax_list (map snd pts))
   | MRatFunc _ (Some s), CInt y => rseg_applies s y
@@ -227,16 +241,9 @@ Definition p2i (c : compu) (v : cval) : cres cval :=
     match matching with
     | [] => match idef with Some x => COk (CInt x) | None => CErr CEncode end
     | [s] =>
-      match tinv s with
+      match tscale_internal s with
       | Some x => COk (CInt x)
-      | None =>
-        match tlo s with
-        | Some (mkLimit (Some x) _) => COk (CInt x)
-        | _ => match thi s with
-               | Some (mkLimit (Some x) _) => COk (CInt x)
-               | _ => CErr CEncode
-               end
-        end
+      | None => CErr CEncode
       end
     | _ => CErr CEncode
     end
